@@ -251,7 +251,9 @@ class Model:
             inner = self.nodes_coll(g.iter)
             if inner is not None:
                 identity = isinstance(e.elt, ast.Name) and isinstance(g.target, ast.Name) and e.elt.id == g.target.id
-                return inner if identity and not g.ifs else "filtered"
+                if not identity:
+                    return None  # a mapped collection: not read
+                return inner if not g.ifs else "filtered"
         if isinstance(e, ast.Call) and isinstance(e.func, ast.Name) and e.func.id == "filter" and len(e.args) == 2 and self.nodes_coll(e.args[1]):
             return "filtered"
         if isinstance(e, ast.Subscript) and isinstance(e.slice, ast.Slice) and self.nodes_coll(e.value):
@@ -301,6 +303,12 @@ class Model:
                 body = [s for s in m.node.body if not (isinstance(s, ast.Expr) and isinstance(s.value, ast.Constant))]
                 if len(body) == 1 and isinstance(body[0], ast.Return) and body[0].value is not None and m.param_names and m.param_names[0] == self.selfname:
                     return _copy_node(body[0].value)
+        if isinstance(e, ast.Attribute) and isinstance(e.ctx, ast.Load):
+            base = self.resolve(e.value, bound, depth + 1)
+            if isinstance(base, ast.Call):
+                fld = self._field_of_new_object(base, e.attr)
+                if fld is not None:
+                    return self.resolve(fld, bound, depth + 1)
         if isinstance(e, (ast.ListComp, ast.SetComp, ast.GeneratorExp, ast.DictComp)):
             new = _copy_node(e)
             inner = bound
@@ -335,6 +343,69 @@ class Model:
             if hasattr(e, a):
                 setattr(new, a, getattr(e, a))
         return new
+
+    def _field_of_new_object(self, call: ast.Call, attr: str) -> ast.expr | None:
+        """`Helper(args).attr` for a repo class whose constructor stores `self.attr = <expr over its parameters>`: that expression
+        with the arguments substituted (a helper object created for one call is just a bundle of locals)."""
+        from .common import types_of
+
+        ctx, orig = getattr(call, "_src", None) or getattr(call, "_orig", None) or (self.V, call)
+        if not isinstance(orig, ast.Call):
+            return None
+        try:
+            ci = types_of(self.repo).ctor_class(ctx, orig)
+        except Exception:  # noqa: BLE001
+            return None
+        if ci is None:
+            return None
+        init = self.repo.lookup_method(ci, "__init__")
+        if any(isinstance(a, ast.Starred) for a in call.args) or any(k.arg is None for k in call.keywords):
+            return None
+        if init is None:
+            fields = [a for c in reversed(self.repo.mro(ci)) for a in c.ann_attrs]
+            env = dict(zip(fields, call.args))
+            env.update({k.arg: k.value for k in call.keywords})
+            return env.get(attr)
+        params = [p.arg for p in [*init.node.args.posonlyargs, *init.node.args.args]][1:]
+        if len(call.args) > len(params):
+            return None
+        env: dict[str, ast.expr] = dict(zip(params, call.args))
+        env.update({k.arg: k.value for k in call.keywords})
+        selfname = init.param_names[0]
+        stores = []
+        for st in init.node.body:
+            tgts = st.targets if isinstance(st, ast.Assign) else ([st.target] if isinstance(st, ast.AnnAssign) and st.value is not None else [])
+            for t in tgts:
+                if isinstance(t, ast.Attribute) and isinstance(t.value, ast.Name) and t.value.id == selfname and t.attr == attr:
+                    stores.append(st.value)
+                elif isinstance(t, ast.Name) and isinstance(st, ast.Assign) and len(st.targets) == 1:
+                    env.setdefault(t.id, None)  # a local of the constructor: not followed
+                    env[t.id] = st.value if env[t.id] is None else env[t.id]
+        all_stores = [n for n in ast.walk(init.node) if isinstance(n, ast.Attribute) and isinstance(n.ctx, ast.Store) and isinstance(n.value, ast.Name) and n.value.id == selfname and n.attr == attr]
+        if len(stores) != 1 or len(all_stores) != 1:
+            return None
+        # fields read inside the stored expression (self.other) are resolved the same way
+        outer = self
+
+        class S(ast.NodeTransformer):
+            def __init__(self, depth=0):
+                self.depth = depth
+
+            def visit_Name(self, node):  # noqa: N802
+                if isinstance(node.ctx, ast.Load) and node.id in env and env[node.id] is not None and self.depth < 6:
+                    return S(self.depth + 1).visit(_copy_node(env[node.id])) if node.id not in params else _copy_node(env[node.id])
+                return node
+
+            def visit_Attribute(self, node):  # noqa: N802
+                if isinstance(node.value, ast.Name) and node.value.id == selfname:
+                    inner = outer._field_of_new_object(call, node.attr) if node.attr != attr else None
+                    return inner if inner is not None else node
+                return self.generic_visit(node)
+
+            def visit_Lambda(self, node):  # noqa: N802
+                return node
+
+        return S().visit(_copy_node(stores[0], keep=()))
 
     def _resolve_other(self, x, bound, depth):
         if isinstance(x, ast.keyword):
